@@ -379,7 +379,10 @@ PROPS = {
     "C19": dict(
         bins={"main": dict(tc="gcc", src="prop_C19.cpp", variants=["plain"])},
         parts=[dict(name="mink", workers={Q: 16, T: 16}, cases={Q: 2500, T: 100000})],
-        rule=("cases = pattern and path of 1-8 random vertices each (non-convex and self-intersecting included), |coord| from "
+        rule=("cases = pattern and path of 1-8 random vertices each (non-convex and self-intersecting included), each operand "
+              "drawn until it is in general position by itself (C01's definition at separation 3 + |coord|*2^-40; one-point "
+              "operands qualify, closed two-point operands retrace their edge and do not; the judge discards anything else), "
+              "4% with an empty operand, |coord| from "
               "50 to 2^39 (sums reach 2^40), closed and open path, MinkowskiSum and MinkowskiDiff. Reference: the "
               "parallelograms a_g+-b_h, a_i+-b_h, a_i+-b_j, a_g+-b_j for every path edge (closing edge only when closed) and "
               "every pattern edge, built in the harness from the definition; one integer sample per face of the arrangement of "
@@ -388,7 +391,8 @@ PROPS = {
               "otherwise; empty operand or no non-degenerate parallelogram => empty result. Non-trivial = overlapping "
               "parallelograms and a non-convex or self-intersecting operand. (The PathD overloads are compared with the "
               "integer ones in C16.)"),
-        assumptions=["a mismatch that disappears when single path vertices are moved by one unit (>= 3 judged moves, at most half still failing) is the near-touch artefact KF-ENG-a of the final Union"],
+        assumptions=["a mismatch that disappears when single path vertices are moved by one unit (>= 4 judged moves, at least 2 of them cure it) is the near-touch artefact KF-ENG-a of the final Union",
+                     "'in general position' is read as C01 defines it, applied to each operand separately: operands with repeated points, slivers thinner than 3 units or retraced edges (two-point closed patterns) are outside the domain and not judged"],
         technique="property-based testing (rapidcheck): reference construction of the swept parallelograms + exact sampled coverage",
         level_text="Generated search against the definition (union of parallelograms) with exact point-in-parallelogram tests. Exploration only.",
         level_note="trusts oracle.hpp and the parallelogram construction in prop_C19.cpp, g++, rapidcheck",
